@@ -1,10 +1,13 @@
 #!/bin/sh
 # run the pinned suite, print pass/fail counts; exit 1 on any failure
-cd /repo && /venv/bin/python -m pytest -q -p no:cacheprovider --timeout=900 --junitxml=/tmp/junit.xml -o addopts="" >/tmp/pytest.out 2>&1
-python3 - <<'PY'
+# usage: tools/run_tests.sh [REPO_DIR]   (default /repo; a scratch worktree for tools)
+R=${1:-/repo}
+cd "$R" && PYTHONPATH="$R" /venv/bin/python -m pytest -q -p no:cacheprovider --timeout=900 --junitxml=/tmp/junit.$$.xml -o addopts="" >/tmp/pytest.$$.out 2>&1
+JUNIT=/tmp/junit.$$.xml python3 - <<'PY'
 import sys
 import xml.etree.ElementTree as ET
-r=ET.parse('/tmp/junit.xml').getroot()
+import os
+r=ET.parse(os.environ['JUNIT']).getroot()
 ts=r if r.tag=='testsuite' else r[0]
 d={k:int(ts.get(k)) for k in ('tests','failures','errors','skipped')}
 print(d)
@@ -15,3 +18,6 @@ for tc in ts.iter('testcase'):
 passed=d['tests']-d['failures']-d['errors']-d['skipped']
 if bad or passed != 72: sys.exit(1)
 PY
+rc=$?
+rm -f /tmp/junit.$$.xml /tmp/pytest.$$.out
+exit $rc
